@@ -7,10 +7,12 @@ Roles == {<<TRUE, FALSE>>, <<FALSE, TRUE>>, <<TRUE, TRUE>>}
 Cx(i) == {[id |-> i, ab |-> a, ts |-> t, scu |-> r[1], scp |-> r[2]] : a \in Abstracts, t \in Syntaxes, r \in Roles}
 AcceptedSets == {{}} \cup {{c} : c \in Cx(1)} \cup (IF MaxCx >= 2 THEN {{c, d} : c \in Cx(1), d \in Cx(3)} ELSE {})
 \* operations: kind decides which real call is made; sop / role / data set as in CtxSelect
-Ops == {[kind |-> "store", sop |-> "A", role |-> "scu", ds |-> t] : t \in Syntaxes}
-       \cup {[kind |-> "find", sop |-> "A", role |-> "scu", ds |-> "fresh"], [kind |-> "echo", sop |-> "A", role |-> "scu", ds |-> "none"],
-             [kind |-> "event_report", sop |-> "A", role |-> "any", ds |-> "fresh"], [kind |-> "ups_create", sop |-> "UPSPush", role |-> "scu", ds |-> "fresh"],
-             [kind |-> "nget", sop |-> "B", role |-> "scu", ds |-> "none"]}
+O(k, sp, r, d) == [kind |-> k, sop |-> sp, role |-> r, ds |-> d, raw |-> FALSE, prev |-> "none"]
+Ops == {O("store", "A", "scu", t) : t \in Syntaxes}
+       \cup {O("find", "A", "scu", "fresh"), O("echo", "A", "scu", "none"), O("event_report", "A", "any", "fresh"),
+             O("ups_create", "UPSPush", "scu", "fresh"), O("nget", "B", "scu", "none")}
+       \* a file sent by path in chunked mode (bytes streamed as stored), alone or after a data-set C-STORE of the same kind
+       \cup {[kind |-> "store_path", sop |-> "A", role |-> "scu", ds |-> t, raw |-> TRUE, prev |-> p] : t \in Syntaxes, p \in {"none", "same"}}
 VARIABLES accepted, op
 Init == accepted \in AcceptedSets /\ op \in Ops
 Next == FALSE /\ UNCHANGED <<accepted, op>>
